@@ -11,6 +11,7 @@ from harness.ns import QNAMES
 ID = "C12"
 LEVEL_TEXT = ("Lean 4 theorems about the executable model of the code (all inputs, by induction), tied to /repo by tables regenerated on every run (decide) and by differential execution of model and implementation; the property oracle is also run on the implementation for every case. window_correct is proved for every (limit, offset) and class against the specification's window reader; that an engine returns that row window is executed on SQLite only (LIMIT family).")
 LEAN_MODULES = ["Pypika.Props.C12"]
+TRACE_BUILDER = True   # builder calls made by this check are also run through Pypika.B.step (harness/trace.py)
 THEOREMS = ["Pypika.C12.window_correct", "Pypika.C12.limit_zero_kept", "Pypika.C12.mssql_offset_with_fetch",
             "Pypika.C12.setop_window_correct", "Pypika.C12.last_wins", "Pypika.C12.readNat_natText"]
 AGREE = ["Pypika.Agree.pagination", "Pypika.Agree.setop_pagination"]
